@@ -10,6 +10,7 @@ CHECKS = {
     "C07": compiledchecks.c07,
     "C08": compiledchecks.c08,
     "C09": compiledchecks.c09,
+    "C12": smallchecks.c12,
     "C13": compiledchecks.c13,
     "C16": smallchecks.c16,
 }
